@@ -188,6 +188,15 @@ class GAM(Core, MetaTermMixin):
         # call super and exclude any variables
         super(GAM, self).__init__()
 
+    def __setattr__(self, name, value):
+        if name == 'terms' and isinstance(value, (Term, TermList)):
+            # the model owns its terms however they reach it (constructor, attribute
+            # assignment, set_params): term objects are mutable (plural parameters are
+            # written through them) and must not be shared with the caller's expression
+            # or with other models given the same expression
+            value = deepcopy(value)
+        super(GAM, self).__setattr__(name, value)
+
     # @property
     # def lam(self):
     #     if self._has_terms():
